@@ -31,6 +31,10 @@ func c12FSPrestate() *c12FS {
 	}
 	s.child = parent + "/" + persisters.VerifComponent("C", 1, "ab_")
 	v.Env.AddEntry(s.child, tar.TypeReg, 0, false, "")
+	if s.sib+s.d != s.child {
+		v.Env.AddEntry(s.sib+s.d, tar.TypeDir, 0, false, "")
+		v.Env.AddEntry(s.sib+s.d+"/z", tar.TypeReg, 0, false, "")
+	}
 	return s
 }
 
